@@ -168,7 +168,9 @@ def _spec(v):
   if isinstance(v, float):
     if math.isnan(v):
       return {'__': 'nan'}
-    return {'__': 'inf' if v > 0 else 'ninf'}
+    if math.isinf(v):
+      return {'__': 'inf' if v > 0 else 'ninf'}
+    return v
   if isinstance(v, enum.Enum):
     return {'__': 'enum', 'n': v.name}
   if isinstance(v, tuple):
@@ -210,6 +212,9 @@ def _record_case(case):
     test.attach('t.txt', 'text data')
 
   def p2(test):
+    # the same attachment names as p1 with other contents: attachments belong to their phase
+    test.attach('blob.bin', payload[::-1] + b'p2')
+    test.attach('t.txt', 'other text')
     return htf.PhaseResult.FAIL_SUBTEST if case.get('fail_sub') else None
   nodes = [p1, phase_branches.PhaseFailureCheckpoint.last('cp1'),
            htf.Subtest('st', p2, phase_branches.DiagnosisCheckpoint('cp2', phase_branches.DiagnosisCondition.on_all(R.B),
@@ -247,6 +252,12 @@ def _record_case(case):
     att = decoded['phases'][0]['attachments']
     facts['attachment_roundtrip'] = '1' if (base64.b64decode(att['blob.bin']['data']) == payload and
                                             base64.b64decode(att['t.txt']['data']) == b'text data') else '0'
+    per_phase = len(decoded['phases']) == len(r.phases)
+    for dph, ph in zip(decoded['phases'], r.phases):
+      per_phase = per_phase and sorted(dph['attachments']) == sorted(ph.attachments)
+      for name, a in ph.attachments.items():
+        per_phase = per_phase and base64.b64decode(dph['attachments'].get(name, {}).get('data', '')) == a.data
+    facts['attachment_roundtrip_every_phase'] = '1' if per_phase else '0'
     # decodes to the same structure as the base-type rendering (tuples become lists; attachments inlined)
     expect = json.loads(json.dumps(r.as_base_types(), default=lambda o: '<att>'))
     for ph in decoded['phases']:
@@ -316,7 +327,8 @@ def gen_cases(rng, tier):
   for v in vals:
     for js in (True, False):
       cases.append({'kind': 'V', 'v': _spec(v), 'js': js})
-  pool = [5, 'txt', NAN, None, [1, INF], {'k': NAN}, (1, 'a'), Color.BLUE, True]
+  # 1 == True == 1.0 and 0 == False == 0.0 compare equal but render differently
+  pool = [5, 'txt', NAN, None, [1, INF], {'k': NAN}, (1, 'a'), Color.BLUE, True, 1, 1.0, [True], [1], 0, False]
   coords = [[1], [2], ['a']]
   def rand_ops(r, dim, n):
     ops = []
